@@ -84,6 +84,38 @@ QString genPlaceholder(const QString &text, const QJsonArray &attrs)
     return "%{" + name + genSpec(hint) + "}";
 }
 
+// A signature from the narrow, uncontroversial part of what compilers put into Q_FUNC_INFO: [return type] [scope::]*name(args)
+// [const] [noexcept] [[with T = ...]]. The documented result of %{func} ("cleaned function name", docs/api/formatters.md:
+// `void MyClass::myMethod(int, QString)` -> `MyClass::myMethod`) is the qualified name. Where a scope is a class template the docs are
+// silent on whether its arguments stay: both spellings are accepted. No operators, lambdas or function-pointer types here (heuristics).
+void genSignature(QJsonObject &c)
+{
+    static const char *rets[] = { "", "void", "int", "bool", "QString", "const QString &", "const QString&", "char *", "char*", "unsigned long", "static void", "virtual int",
+                                  "QList<int>", "std::map<int, QString>", "auto", "const std::vector<std::pair<int, int> > &", "QtLogger::Handler::HandlerType" };
+    static const char *scopes[] = { "N", "MyClass", "app", "Inner_2", "detail", "QtLogger", "a1" };
+    static const char *tscopes[] = { "Box<int>", "Map<QString, QList<int> >", "Tpl<T>" };
+    static const char *names[] = { "f", "myMethod", "run", "process_2", "x", "main", "constValue", "finalize", "do_override" };
+    static const char *args[] = { "()", "(int)", "(int, QString)", "(const QString &, int *)", "(QList<int>)", "(const std::map<int, QString> &, bool)", "(T)", "(void)", "(int, ...)" };
+    static const char *tails[] = { "", "", " const", " noexcept", " const noexcept", " volatile", " [with T = int]", " const [with T = QList<int>; U = char]",
+                                   " [with T = void (*)(int)]", " [with F = std::function<void()>; T = int]" };
+    QString ret = rets[pick(0, 16)];
+    QString plain, kept;
+    int ns = pick(0, 3);
+    QString lastClass;
+    for (int i = 0; i < ns; i++) {
+        if (chance(15)) { QString t = tscopes[pick(0, 2)]; kept += t + "::"; plain += t.left(t.indexOf('<')) + "::"; lastClass = t.left(t.indexOf('<')); }
+        else { QString sc = scopes[pick(0, 6)]; kept += sc + "::"; plain += sc + "::"; lastClass = sc; }
+    }
+    QString name = names[pick(0, 8)];
+    if (ns > 0 && chance(12)) { name = lastClass; ret = ""; }               // constructor
+    else if (ns > 0 && chance(8)) { name = "~" + lastClass; ret = ""; }     // destructor
+    const QString sig = (ret.isEmpty() ? QString() : ret + " ") + kept + name + args[pick(0, 8)] + tails[pick(0, 9)];
+    c["func"] = sig;
+    QJsonArray acc { plain + name };
+    if (kept != plain) acc.append(kept + name);
+    c["funcAccept"] = acc;
+}
+
 QJsonObject generate()
 {
     QJsonObject c;
@@ -107,6 +139,7 @@ QJsonObject generate()
     c["file"] = files[pick(0, 7)];
     static const char *funcs[] = { "void f()", "int N::C::m(const QString&) const", "main", "", "auto x::operator()(int)::<lambda()>" };
     c["func"] = funcs[pick(0, 4)];
+    if (chance(60)) genSignature(c);
     c["line"] = chance(80) ? pick(0, 99999) : -pick(0, 5);
     QJsonArray attrs;
     for (auto n : kAttrNames) {
@@ -179,6 +212,14 @@ std::string run(const QJsonObject &c)
     {
         PatternFormatter pf(QStringLiteral("%{func}"));
         m.funcCleaned = pf.format(lm);
+    }
+
+    if (c.contains("funcAccept")) {
+        bool okf = false;
+        for (auto a : c["funcAccept"].toArray()) if (a.toString() == m.funcCleaned) okf = true;
+        cls("func_signature_with_exact_name", true);
+        if (!okf) return "%{func} of the signature " + show(m.function).toStdString() + " is " + show(m.funcCleaned).toStdString() + ", the cleaned function name is "
+                    + show(c["funcAccept"].toArray()[0].toString()).toStdString();
     }
 
     PatternFormatter pf(pattern);
